@@ -1,6 +1,7 @@
 package main
 
 import (
+	"bytes"
 	"strconv"
 	"strings"
 
@@ -113,10 +114,25 @@ func genSignRoundtrip(h *H, modes []string) {
 		for _, v := range []string{"1.0", "2.0"} {
 			for i := 0; i < n; i++ {
 				sk := h.randSigKey()
-				msg := h.rng.Bytes(h.pickLen(i))
+				msg := h.content(h.pickLen(i))
 				rng := h.rng.Bytes(16 + h.rng.Intn(8))
 				h.Run(signCase(mode, v, sk, [][]byte{msg}, rng, true))
 				h.Run(signCase(mode, v, sk, splitPieces(h.rng, msg), rng, false))
+			}
+			// zero-padded payloads: a non-zero stretch followed by a zero run of every length 1..64 (every
+			// alignment of the run against the 32-byte blocks of the armor and against the packet framing)
+			if mode == "att" {
+				for k := 1; k <= 64; k++ {
+					if v == "2.0" && !thorough && k%4 != 0 {
+						continue
+					}
+					msg := append(bytes.Repeat([]byte{0xff}, 32), make([]byte, k)...)
+					if k%3 == 0 {
+						msg = append(h.rng.Bytes(1+h.rng.Intn(40)), make([]byte, k)...)
+					}
+					h.tag("content:zero-padded")
+					h.Run(signCase(mode, v, h.randSigKey(), [][]byte{msg}, h.rng.Bytes(16), k%2 == 0))
+				}
 			}
 			// chunk-boundary lengths (the model chunks MiB-size lists natively)
 			ks := []int{1}
@@ -126,7 +142,8 @@ func genSignRoundtrip(h *H, modes []string) {
 			if !thorough && !h.specOracles && mode == "att" {
 				// one Write of more than two blocks (the flush loop must run more than once)
 				h.tag("len:two-blocks-plus-one")
-				h.Run(signCase(mode, v, h.randSigKey(), [][]byte{h.rng.Bytes(2*mib + 1)}, h.rng.Bytes(16), true))
+				// (a sparse payload: random start, then zeros)
+				h.Run(signCase(mode, v, h.randSigKey(), [][]byte{append(h.rng.Bytes(100), make([]byte, 2*mib+1-100)...)}, h.rng.Bytes(16), true))
 			}
 			for _, k := range ks {
 				for _, d := range []int{-1, 0, 1} {
